@@ -44,6 +44,8 @@ def gen_market(rng, mnum, t0, opts):
     inplay_at = rng.randrange(2, n) if rng.random() < opts.get("p_inplay", 0.3) else None
     remove_at = rng.randrange(1, n) if rng.random() < opts.get("p_removal", 0.2) else None
     close = rng.random() < opts.get("p_close", 0.5)
+    if any(r["hc"] for r in runners):
+        remove_at = None      # handicap lines have no adjustment factors and no non-runners (the removal code needs the factors)
     for k in range(n):
         pt += rng.choice(SPACINGS) if k else 0
         if k and opts.get("hour_jumps") and rng.random() < 0.15:
@@ -112,6 +114,14 @@ def gen_scenario(rng, **opts):
         mopts = dict(opts)
         mopts["type"] = rng.choice(["WIN", "WIN", "PLACE", "OTHER"])
         m, tend = gen_market(rng, 101 + i, t0 + (0 if opts.get("event_processing") else i * 100_000), mopts)
+        if opts.get("p_each_way") and rng.random() < opts["p_each_way"] and not any(r["hc"] for r in m["updates"][0]["runners"]):
+            # each-way market: divisor in the definition, one beaten runner is PLACED at the close
+            m["type"], m["ew"] = "EACH_WAY", rng.choice([4.0, 5.0, 2.0])
+            for u in m["updates"]:
+                if u["status"] == "CLOSED":
+                    losers = [r for r in u["runners"] if r["status"] == "LOSER"]
+                    if losers:
+                        losers[0]["status"] = "PLACED"
         markets.append(m)
         if not opts.get("event_processing"):
             t0 = tend
